@@ -104,7 +104,12 @@ func GenInput(rng *rand.Rand, spec Spec, thorough bool) (Input, string) {
 		if reps > 12 && reps < 40 {
 			reps = 40 + reps
 		}
-		if spec.TimeoutMs > 0 && reps >= 40 {
+		if spec.TimeoutMs > 0 && tail == "y" && reps > 2000 {
+			// a successful match over a very long run takes about as long as the timeout itself
+			reps = 40 + reps%1000
+			bucket = "len<4K"
+		}
+		if spec.TimeoutMs > 0 && reps >= 40 && tail != "y" {
 			bucket = "x-run(timeout)"
 		}
 	}
